@@ -26,7 +26,8 @@ def main():
         def run_demo():
             if demo == "demo_test.go":
                 shutil.copy(os.path.join(src, demo), os.path.join(wt, "zz_demo_test.go"))
-                r = sh("go test -vet=off -count=1 -run 'TestDemo' .", wt)
+                tags = "-tags demo " if "go:build demo" in open(os.path.join(src, demo)).read() else ""
+                r = sh("go test -vet=off -count=1 %s-run 'TestDemo' ." % tags, wt)
                 os.remove(os.path.join(wt, "zz_demo_test.go")); return r
             else:
                 os.makedirs(os.path.join(wt, "cmd", "zzdemo"), exist_ok=True)
